@@ -28,5 +28,5 @@ Extraction "model.ml"
   Transports.sendmail_args Transports.json_envelope Transports.stub_keeps_octets Sinks.read_envelope Sinks.sendmail_reads
   Model.Dkim.canon_body Model.Dkim.canon_headers_relaxed Model.Dkim.sig_field Model.Dkim.fold_sig Spec.Dkim.spec_body Spec.Dkim.spec_field_relaxed Spec.Dkim.delete_b DkimShapeCert.certify
   Date.of_secs Date.to_secs Date.date_display Date.date_parse
-  TypedHeaders.mime_version_parse TypedHeaders.mime_version_display TypedHeaders.cte_parse TypedHeaders.cte_display
+  TypedHeaders.mime_version_parse TypedHeaders.mime_version_display TypedHeaders.cte_parse TypedHeaders.cte_display TypedHeaders.cd_parse TypedHeaders.cd_raw
   Tls.tsend Tls.clear_units Tls.tls_units.
